@@ -226,12 +226,23 @@ def r3_r4(ctx, rep):
         if n.get("k") == "block":
             t = show_stmts(n, maxdepth=6)
             if "let table_ref = self.lower_table_ref(ast)?" in t and "self.pipeline.push(Transform::From(table_ref))" in t and "return Ok(())" in t:
-                first = n["s"][0]
-                ok = False
-                if first.get("k") == "if":
-                    for i2 in walk(first["t"]):
-                        if i2.get("k") == "if" and show(i2["c"]) == "(Some(target) == closure_param)" and "return Ok(())" in show_stmts(i2["t"]):
-                            ok = True
+                # every return before the push is taken only when the expression IS the closure parameter (an equality of its target with `closure_param`)
+                import guards
+                par = guards.parents(n)
+                idx = [i for i, st in enumerate(n["s"]) if "self.lower_table_ref(ast)" in show_stmts({"k": "block", "s": [st]}, maxdepth=6)][0]
+                early = [r for st in n["s"][:idx] for r in walk(st) if r.get("k") == "return"]
+                ok = len(early) == 1
+                for r in early:
+                    conds, cur = [], r
+                    while id(cur) in par:
+                        p_ = par[id(cur)]
+                        if p_.get("k") == "if":
+                            if not any(x is cur for x in walk(p_["t"])) and cur is not p_["t"]:
+                                ok = False      # reached through an else branch: the negated condition
+                            conds.append(show(p_["c"], maxdepth=8))
+                        cur = p_
+                    txt = " && ".join(conds)
+                    ok = ok and bool(re.search(r"== closure_param\b|\bclosure_param ==", txt)) and "!=" not in txt and "||" not in txt and "target" in txt
     rep.check(ok, "starts-with-from", "the base case of lower_pipeline must push Transform::From(table_ref), except when the expression is the closure parameter of a loop body", file=lp["file"], line=lp["l"], fn=lp["path"])
 
 
